@@ -10,7 +10,7 @@ import asyncio
 import collections
 
 from harness import refcodec
-from harness.common import HarnessError
+from harness.common import CaseTimeout, HarnessError
 
 MAXN = 0x7FFFFFFF
 
@@ -373,8 +373,28 @@ def transport_classes():
     from rsocket.exceptions import RSocketTransportError
     from rsocket.helpers import wrap_transport_exception
 
+    class BoundedParser:
+        """The transport's FrameParser behind a counter: no chunk of n bytes holds more than n frames, so a decoder that
+        keeps producing is stuck in a loop (it would otherwise fill the memory long before a wall-clock guard fires)."""
+
+        def __init__(self, inner):
+            self._inner = inner
+
+        def __getattr__(self, name):
+            return getattr(self._inner, name)
+
+        async def receive_data(self, data, header_length=3):
+            n = 0
+            async for frame in self._inner.receive_data(data, header_length):
+                n += 1
+                if n > len(data) + 16:
+                    raise CaseTimeout('decoder produced %d frames from %d bytes' % (n, len(data)))
+                yield frame
+
     class TapMixin:
         def _tap_init(self, world, side):
+            if hasattr(self, '_frame_parser'):
+                self._frame_parser = BoundedParser(self._frame_parser)
             self.world = world
             self.side = side
             self.connect_script = None  # None or ('ticks', k) / ('time', seconds)
